@@ -1189,6 +1189,75 @@ def sec_reject(ctx, rng, case):
           "a construct documented as not exportable produced text", construct=name, text=text[:1200])
 
 
+def sec_creg_widths(ctx, rng, case):
+    """one key measured several times with different numbers of qubits (the exporter sizes the register by the widest):
+    every written bit exists, the register has the widest width, and each statement writes qubit i of the instance to bit i"""
+    import cirq
+
+    n = int(rng.integers(2, 6))
+    qs, default, qkind = make_qubits(rng, n)
+    keys = ["a", "b", "m0"][: int(rng.integers(1, 4))]
+    steps = []
+    for key in keys:
+        for _ in range(int(rng.integers(1, 4))):
+            steps.append(gen_measure(rng, n, key, width=int(rng.integers(1, min(n, 4) + 1))))
+    order_ = [int(i) for i in rng.permutation(len(steps))]
+    steps = [steps[i] for i in order_]
+    # a few gates in between (keeps measurements in separate moments as well as in shared ones)
+    mixed = []
+    for st in steps:
+        if rng.random() < 0.5:
+            mixed.append(gen_gate(rng, n, _S["small"], p_ctrl=0.0))
+        mixed.append(st)
+    ops = build_circuit(rng, mixed, qs)
+    circuit = cirq.Circuit(ops, strategy=cirq.InsertStrategy.NEW if rng.random() < 0.5 else cirq.InsertStrategy.EARLIEST)
+    used = set(w for st in mixed for w in st["wires"])
+    qorder, order, okind = choose_order(rng, qs, default, used)
+    version = "2.0" if rng.random() < 0.55 else "3.0"
+    text, how = export(rng, circuit, qorder, 10, version)
+    widths = {}
+    for st in steps:
+        widths[st["key"]] = max(widths.get(st["key"], 0), len(st["wires"]))
+    wit = dict(program=[describe(st) for st in mixed], declared_order=order, version=version, entry_point=how)
+    try:
+        prog = R.parse(text)
+    except R.QasmError as e:
+        if e.kind == "undefined-gate" and e.name == "sxdg":
+            ctx.reject("qasm3-sxdg")
+            return
+        _fail(ctx, "text-parses", "C19:parse-error:" + e.kind, "repeated key with different widths: %s" % e, text=text[:2500], **wit)
+        return
+    ctx.ok("text-parses")
+    real_keys = sorted(widths)
+    mapping = map_cregs(ctx, prog, real_keys, widths, dict(text=text[:2500], **wit))
+    if mapping is None:
+        return
+    pos = {w: i for i, w in enumerate(order)}
+    # per key: the measure statements in program order are the instances in circuit order, qubit i -> bit i
+    in_circuit = {k: [] for k in real_keys}
+    for op in circuit.all_operations():
+        if cirq.is_measurement(op):
+            in_circuit[cirq.measurement_key_name(op)].append([pos[qs.index(q)] for q in op.qubits])
+    got = {k: [] for k in real_keys}
+    rev = {c: k for k, c in mapping.items()}
+
+    def walk(ops_):
+        for o in ops_:
+            if o[0] == "measure":
+                got[rev[o[2]]].append((o[1], o[3]))
+            elif o[0] == "if":
+                walk(o[2])
+    walk(prog.ops)
+    for k in real_keys:
+        want_pairs = [(w, i) for inst in in_circuit[k] for i, w in enumerate(inst)]
+        if got[k] != want_pairs:
+            _fail(ctx, "measure-statements", "C19:measure-statement-targets", "key %r: statements write (qubit, bit) %r, the circuit measures %r" % (k, got[k], want_pairs),
+                  text=text[:2500], **wit)
+            return
+    ctx.ok("measure-statements")
+    ctx.distinct(("creg-widths", version, tuple(order), tuple((st["key"], tuple(st["wires"])) for st in steps)), nontrivial=any(len({len(st["wires"]) for st in steps if st["key"] == k}) > 1 for k in real_keys))
+
+
 SECTIONS = [
     ("unitary", sec_unitary, 7000, 120000, 4.0),
     ("mnemonic", sec_mnemonic, 7000, 80000, 3.0),
@@ -1198,4 +1267,5 @@ SECTIONS = [
     ("control_badkey", sec_control_badkey, 1120, 8000, 0.5),
     ("control_subop", sec_control_subop, 600, 4000, 0.4),
     ("reject", sec_reject, 360, 2700, 0.2),
+    ("creg_widths", sec_creg_widths, 1200, 10000, 0.6),
 ]
